@@ -531,6 +531,26 @@ def gen_case(seed, c, special_mode=False):
                 setv(s, 1, cur)
                 cur = None
         faults.append('padded-gs06')
+    if rnd.random() < 0.08 or c % 23 == 5:
+        # set control numbers of unusual length or content (header and trailer alike: the envelope stays consistent); the
+        # acknowledgement has to name each set by exactly this value.  Over-length ones share their first nine characters.
+        style = rnd.choice(('long', 'long', 'blank', 'short'))
+        k = 0
+        cur = None
+        for s in doc:
+            if s['id'] == 'ST':
+                k += 1
+                if style == 'long':
+                    cur = '00000000%d%d' % (1 + k // 10, k % 10) + rnd.choice(('', '7', '42'))
+                elif style == 'blank':
+                    cur = '%04d ' % k
+                else:
+                    cur = '%d' % k
+                setv(s, 1, cur)
+            elif s['id'] == 'SE' and cur is not None:
+                setv(s, 1, cur)
+                cur = None
+        faults.append('st02-' + style)
     delims = ('~', '*', ':', '^')
     text = render(doc, *delims)
     meta = {'maps': sorted(set(e['map_file'] for e in epool))[:3], 'icvn': icvn, 'shape': shape, 'faults': faults,
